@@ -13,6 +13,7 @@ import (
 	"path/filepath"
 	"regexp"
 	"sort"
+	"sync"
 	"strings"
 )
 
@@ -192,8 +193,26 @@ func patchSeedsFor(p *Property, verif string) []patchSeed {
 }
 
 func runPatchSeeds(p *Property, dir, verif string) []SeedResult {
+	seeds := patchSeedsFor(p, verif)
+	res := make([]SeedResult, len(seeds))
+	sem := make(chan struct{}, 6)
+	var wg sync.WaitGroup
+	for i, ps := range seeds {
+		wg.Add(1)
+		sem <- struct{}{}
+		go func(i int, ps patchSeed) {
+			defer wg.Done()
+			defer func() { <-sem }()
+			res[i] = runOnePatchSeed(p, dir, ps)
+		}(i, ps)
+	}
+	wg.Wait()
+	return res
+}
+
+func runOnePatchSeed(p *Property, dir string, ps patchSeed) SeedResult {
 	var out []SeedResult
-	for _, ps := range patchSeedsFor(p, verif) {
+	for range []int{0} {
 		tmp, err := patchedCopy(dir, ps.Path)
 		if err != nil {
 			out = append(out, SeedResult{ps.Name, "skipped", "patch does not apply to the current tree"})
@@ -230,7 +249,7 @@ func runPatchSeeds(p *Property, dir, verif string) []SeedResult {
 			out = append(out, SeedResult{ps.Name, "missed", "no violation reported"})
 		}
 	}
-	return out
+	return out[0]
 }
 
 // ---- behaviour-preserving patches (/verif/benign): no rule may fire or become undecided ----------------
@@ -239,6 +258,10 @@ func runBenignPatches(p *Property, dir, verif string) []SeedResult {
 	var out []SeedResult
 	files, _ := filepath.Glob(filepath.Join(verif, "benign", "*", "patch.diff"))
 	sort.Strings(files)
+	// correctly implemented small features (/verif/features): property-preserving evolution of the code
+	feats, _ := filepath.Glob(filepath.Join(verif, "features", "*", "patch.diff"))
+	sort.Strings(feats)
+	files = append(files, feats...)
 	// reports that exist on the unpatched tree (recorded known findings) do not count
 	old := map[string]bool{}
 	if base, err := Load(LoadOpts{Dir: dir}); err == nil {
@@ -250,8 +273,36 @@ func runBenignPatches(p *Property, dir, verif string) []SeedResult {
 			}
 		}
 	}
-	for _, pf := range files {
+	out = make([]SeedResult, len(files))
+	sem := make(chan struct{}, 6)
+	var wg sync.WaitGroup
+	for i, pf := range files {
+		wg.Add(1)
+		sem <- struct{}{}
+		go func(i int, pf string) {
+			defer wg.Done()
+			defer func() { <-sem }()
+			out[i] = runOneBenign(p, dir, pf, old)
+		}(i, pf)
+	}
+	wg.Wait()
+	return out
+}
+
+func runOneBenign(p *Property, dir, pf string, old map[string]bool) SeedResult {
+	var out []SeedResult
+	for range []int{0} {
 		name := "benign:" + filepath.Base(filepath.Dir(pf))
+		expected := ""
+		if filepath.Base(filepath.Dir(filepath.Dir(pf))) == "features" {
+			name = "feature:" + filepath.Base(filepath.Dir(pf))
+			if data, err := os.ReadFile(filepath.Join(filepath.Dir(filepath.Dir(pf)), "EXPECTED.json")); err == nil {
+				m := map[string]string{}
+				if json.Unmarshal(data, &m) == nil {
+					expected = m[filepath.Base(filepath.Dir(pf))]
+				}
+			}
+		}
 		tmp, err := patchedCopy(dir, pf)
 		if err != nil {
 			out = append(out, SeedResult{name, "skipped", "patch does not apply to the current tree"})
@@ -282,14 +333,26 @@ func runBenignPatches(p *Property, dir, verif string) []SeedResult {
 				fired = append(fired, "UNDECIDED "+o.Rule+" "+o.Key)
 			}
 		}
-		if len(fired) == 0 {
-			out = append(out, SeedResult{name, "quiet", "behaviour-preserving patch raised no report"})
-		} else {
-			if len(fired) > 4 {
-				fired = append(fired[:4], "...")
+		onlyUndecided := len(fired) > 0
+		for _, f := range fired {
+			if !strings.HasPrefix(f, "UNDECIDED ") {
+				onlyUndecided = false
 			}
+		}
+		if len(fired) > 4 {
+			fired = append(fired[:4], "...")
+		}
+		switch {
+		case len(fired) == 0:
+			out = append(out, SeedResult{name, "quiet", "behaviour-preserving patch raised no report"})
+		case onlyUndecided:
+			// the patch re-shapes an anchor beyond what normalisation undoes: no verdict, no alarm
+			out = append(out, SeedResult{name, "undecided", strings.Join(fired, "; ")})
+		case expected != "":
+			out = append(out, SeedResult{name, "reported-as-expected", strings.Join(fired, "; ") + " — " + expected})
+		default:
 			out = append(out, SeedResult{name, "false-alarm", strings.Join(fired, "; ")})
 		}
 	}
-	return out
+	return out[0]
 }
